@@ -31,8 +31,8 @@ func (r *Rng) Intn(n int) int {
 	}
 	return int(r.Next() % uint64(n))
 }
-func (r *Rng) Bool() bool          { return r.Next()&1 == 1 }
-func (r *Rng) Chance(p int) bool   { return r.Intn(100) < p }
+func (r *Rng) Bool() bool        { return r.Next()&1 == 1 }
+func (r *Rng) Chance(p int) bool { return r.Intn(100) < p }
 func (r *Rng) Bytes(n int) []byte {
 	b := make([]byte, n)
 	for i := range b {
@@ -56,7 +56,7 @@ func hexNatU(u *uint256.Int) string {
 	}
 	return u.ToBig().Text(16)
 }
-func hexU64(u uint64) string { return fmt.Sprintf("%x", u) }
+func hexU64(u uint64) string          { return fmt.Sprintf("%x", u) }
 func hexAddr(a common.Address) string { return new(big.Int).SetBytes(a[:]).Text(16) }
 func hexAddrP(a *common.Address) string {
 	if a == nil {
@@ -116,12 +116,12 @@ func showChangeMap(m map[uint64][][]byte) string {
 
 type Emitter struct {
 	Capture *[][3]string // when set, lines are captured in memory instead of written
-	w      *bufio.Writer
-	f      *os.File
-	Lines  int
-	Cases  int
-	Stats  map[string]int
-	Sample []string
+	w       *bufio.Writer
+	f       *os.File
+	Lines   int
+	Cases   int
+	Stats   map[string]int
+	Sample  []string
 }
 
 func NewEmitter(path string) *Emitter {
@@ -131,6 +131,7 @@ func NewEmitter(path string) *Emitter {
 	}
 	return &Emitter{w: bufio.NewWriterSize(f, 1<<20), f: f, Stats: map[string]int{}}
 }
+
 // Op writes "<tags>\t<op>\t<impl>"; tags = comma-separated property ids whose check compares
 // this line ("*" = every check; "-" = fed to the model, answer not compared).
 func (e *Emitter) Op(tags, op, impl string) {
